@@ -171,7 +171,9 @@ def cases(tier, rng, dist, focus=None):
     for _ in range(N // 2):
         n = rng.randint(2, 7)
         k = rng.randint(1, 3)
-        g = [rng.randint(0, k) for _ in range(n)]
+        # labels are arbitrary integers: consecutive from 0, negative mixed with non-negative, non-consecutive, unsorted magnitudes
+        alphabet = rng.choice([[0, 1, 2, 3], [0, 1, 2, 3], [-1, 0, 1, 2], [-2, 0, 1, 5], [7, -3, 5, -1], [10, 0, 50, 20], [-1, -2, -3, -4]])[:k + 1]
+        g = [rng.choice(alphabet) for _ in range(n)]
         sizes = [g.count(v) for v in set(g)]
         mult = n
         for s in sizes: mult *= s
@@ -224,6 +226,28 @@ def _affine_pair(a, b, c):
 
 def _scale_pair(a, b):
     return (lambda u: u * a, lambda u: u / b)
+
+
+def _neg_pair():
+    return (lambda u: -u, lambda u: -u)              # negative slope: the order of the control values is reversed
+
+
+def _recip_pair():
+    return (lambda u: 8.0 / (u + 16.0) - 16.0 + 15.5, lambda u: 8.0 / (u + 0.5) - 16.0)   # f(u) = 8/(u+16) - 1/2: non-affine, decreasing on u > -16
+
+
+def real_shift(seed):
+    """the shift argument of the real-seed two_sample_shift runs, and the two potential-outcome maps (exact mirrors)"""
+    k = seed_int(seed) % 4
+    if k == 1:
+        return 0.5, (lambda v: v + 0.5), (lambda v: v - 0.5)
+    if k == 0:
+        pr = _scale_pair(2.0, 2.0)
+    elif k == 2:
+        pr = _neg_pair()
+    else:
+        pr = _recip_pair()
+    return pr, pr[0], pr[1]
 
 
 def _power_pair(k):
@@ -305,10 +329,12 @@ def run_coverage(c):
 
 def oracle_coverage(c, o):
     if o["r"][0] != "ok":
-        return {"why": f"{c['fn']} raised {o['r']}", "cls": f"{c['fn']}:raises"}
+        _v = emit({"why": f"{c['fn']} raised {o['r']}", "cls": f"{c['fn']}:raises"})
+        if _v: return _v
     rows = o["rec"][-c["reps"]:]
     if len(rows) < c["reps"] or any(len(r) != c["n"] for r in rows):
-        return {"why": f"{c['fn']}: the statistic was evaluated on {len(rows)} rearrangements of {c['n']} units, expected {c['reps']}", "cls": f"{c['fn']}:call-count"}
+        _v = emit({"why": f"{c['fn']}: the statistic was evaluated on {len(rows)} rearrangements of {c['n']} units, expected {c['reps']}", "cls": f"{c['fn']}:call-count"})
+        if _v: return _v
     what = {"one_sample": ("sign-flipped", "kept its sign"), "two_sample": ("allocated to the second sample", "allocated to the first sample"),
             "k_sample": ("given label 1", "given label 0")}[c["fn"]]
     for i in range(c["n"]):
@@ -419,7 +445,8 @@ def real_call(c, seed, keep=True):
         return core.two_sample(x, y, reps=c["reps"], stat=c["stat"], alternative=c["alt"], keep_dist=keep, seed=seed, plus1=c["plus1"]), (x, y)
     if fn == "two_sample_shift":
         # scalar shift, or a non-additive pair (f(u)=2u): the two potential-outcome columns then differ by more than a constant
-        sh = 0.5 if seed_int(c["seed"]) % 2 else (lambda u: u * 2.0, lambda u: u / 2.0)
+        # scalar shift, or a non-additive pair: doubling, negation (negative slope), a decreasing non-affine map
+        sh = real_shift(c["seed"])[0]
         return core.two_sample_shift(x, y, reps=c["reps"], stat=c["stat"], alternative=c["alt"], keep_dist=keep, seed=seed, plus1=c["plus1"], shift=sh), (x, y)
     if fn == "one_sample":
         return core.one_sample(x, None, reps=c["reps"], stat=c["stat"], alternative=c["alt"], keep_dist=keep, seed=seed, plus1=c["plus1"]), (x,)
@@ -461,10 +488,8 @@ def run_named_on_tape(c):
         r = guarded(lambda: core.two_sample(x, y, reps=c["reps"], stat=c["stat"], alternative=c["alt"], keep_dist=True, seed=t, plus1=c["plus1"]))
         col0 = list(x) + list(y); col1 = col0
     elif fn == "two_sample_shift":
-        if seed_int(c["seed"]) % 2:
-            sh = 0.5; col0 = list(x) + [v + 0.5 for v in y]; col1 = [v - 0.5 for v in x] + list(y)
-        else:
-            sh = _scale_pair(2.0, 2.0); col0 = list(x) + [v * 2.0 for v in y]; col1 = [v / 2.0 for v in x] + list(y)
+        sh, f_, finv_ = real_shift(c["seed"])
+        col0 = list(x) + [float(f_(v)) for v in y]; col1 = [float(finv_(v)) for v in x] + list(y)
         r = guarded(lambda: core.two_sample_shift(x, y, reps=c["reps"], stat=c["stat"], alternative=c["alt"], keep_dist=True, seed=t, plus1=c["plus1"], shift=sh))
     else:
         r = guarded(lambda: core.one_sample(x, None, reps=c["reps"], stat=c["stat"], alternative=c["alt"], keep_dist=True, seed=t, plus1=c["plus1"]))
@@ -530,18 +555,24 @@ def oracle_prng(c, o):
     bad = [k for k in ("seeded_is_sha", "seeded_global_same", "same_stream", "rs_passthrough", "sha_passthrough", "none_is_sha", "none_draws_from_global") if not o.get(k, False)]
     if bad:
         cls = "get_prng:global-rng" if bad == ["seeded_global_same"] else "get_prng:int-vs-sha256" if "same_stream" in bad else "get_prng:contract"
-        return {"why": f"get_prng({c['seed']!r}): contract violated: {bad}", "cls": cls}
+        _v = emit({"why": f"get_prng({c['seed']!r}): contract violated: {bad}", "cls": cls})
+        if _v: return _v
     for name, (a1, a2, sh, r1, r2) in o.get("helpers", {}).items():
         if a1[0] != "ok" or sh[0] != "ok" or r1[0] != "ok":
-            return {"why": f"{name} raised with seed {o.get('helper_seed')!r}: {a1[:2]} {sh[:2]} {r1[:2]}", "cls": f"{name}:raises"}
+            _v = emit({"why": f"{name} raised with seed {o.get('helper_seed')!r}: {a1[:2]} {sh[:2]} {r1[:2]}", "cls": f"{name}:raises"})
+            if _v: return _v
         if a1 != a2:
-            return {"why": f"{name}(seed={o.get('helper_seed')!r}) twice: {a1[1]} then {a2[1]}", "cls": f"{name}:irreproducible"}
+            _v = emit({"why": f"{name}(seed={o.get('helper_seed')!r}) twice: {a1[1]} then {a2[1]}", "cls": f"{name}:irreproducible"})
+            if _v: return _v
         if a1 != sh:
-            return {"why": f"{name}: seed {o.get('helper_seed')!r} gives {a1[1]} but a fresh SHA256 generator with that seed gives {sh[1]}", "cls": f"{name}:int-vs-sha256"}
+            _v = emit({"why": f"{name}: seed {o.get('helper_seed')!r} gives {a1[1]} but a fresh SHA256 generator with that seed gives {sh[1]}", "cls": f"{name}:int-vs-sha256"})
+            if _v: return _v
         if r1 != r2:
-            return {"why": f"{name}: two RandomState generators in the same state give {r1[1]} and {r2[1]}", "cls": f"{name}:randomstate-replay"}
+            _v = emit({"why": f"{name}: two RandomState generators in the same state give {r1[1]} and {r2[1]}", "cls": f"{name}:randomstate-replay"})
+            if _v: return _v
     if any(b != ["exc", "ValueError"] for b in o["bad"]):
-        return {"why": f"get_prng accepted an object that cannot seed a generator (list / dict / object()): {o['bad']}", "cls": "get_prng:contract"}
+        _v = emit({"why": f"get_prng accepted an object that cannot seed a generator (list / dict / object()): {o['bad']}", "cls": "get_prng:contract"})
+        if _v: return _v
     return None
 
 
@@ -713,9 +744,11 @@ def check_common(c, o, name):
     for tag in ("a", "b"):
         if tag in o:
             if not o[tag]["unmodified"]:
-                return {"why": f"{name} modified an array passed by the caller", "cls": f"{name}:input-modified"}
+                _v = emit({"why": f"{name} modified an array passed by the caller", "cls": f"{name}:input-modified"})
+                if _v: return _v
             if not o[tag]["global_same"]:
-                return {"why": f"{name} with an explicit generator advanced numpy's global random state", "cls": f"{name}:global-rng"}
+                _v = emit({"why": f"{name} with an explicit generator advanced numpy's global random state", "cls": f"{name}:global-rng"})
+                if _v: return _v
     return None
 
 
@@ -725,23 +758,29 @@ def oracle_consistency(c, o, name, alt):
     if a["r"][0] != "ok" or b["r"][0] != "ok":
         if a["r"][0] == b["r"][0] == "exc" and a["r"][1] == b["r"][1]:
             return None
-        return {"why": f"{name}: keep_dist twins disagree on raising: {a['r'][:2]} vs {b['r'][:2]}", "cls": f"{name}:keepdist-raises"}
+        _v = emit({"why": f"{name}: keep_dist twins disagree on raising: {a['r'][:2]} vs {b['r'][:2]}", "cls": f"{name}:keepdist-raises"})
+        if _v: return _v
     kept = a if a["keep"] else b
     other = b if a["keep"] else a
     d = [fl(v) for v in kept["r"][3]]
     tst = fl(kept["r"][2])
     if len(d) != c["reps"]:
-        return {"why": f"{name}: len(dist)={len(d)} != reps={c['reps']}", "cls": f"{name}:dist-length"}
+        _v = emit({"why": f"{name}: len(dist)={len(d)} != reps={c['reps']}", "cls": f"{name}:dist-length"})
+        if _v: return _v
     want = pv_spec(alt, tst, d, c["plus1"])
     if not close(kept["r"][1], want):
-        return {"why": f"{name}: p={kept['r'][1]} but (#{{dist as extreme as {float(tst)}}}+c)/(reps+c) = {want} [alt={alt}, plus1={c['plus1']}, dist={kept['r'][3]}]", "cls": f"{name}:p-not-from-dist"}
+        _v = emit({"why": f"{name}: p={kept['r'][1]} but (#{{dist as extreme as {float(tst)}}}+c)/(reps+c) = {want} [alt={alt}, plus1={c['plus1']}, dist={kept['r'][3]}]", "cls": f"{name}:p-not-from-dist"})
+        if _v: return _v
     if not close(other["r"][1], kept["r"][1]) or other["r"][2] != kept["r"][2]:
-        return {"why": f"{name}: keep_dist changes the result under the same draws: {other['r'][:3]} vs {kept['r'][:3]}", "cls": f"{name}:keepdist-differs"}
+        _v = emit({"why": f"{name}: keep_dist changes the result under the same draws: {other['r'][:3]} vs {kept['r'][:3]}", "cls": f"{name}:keepdist-differs"})
+        if _v: return _v
     if a["log"] != b["log"]:
-        return {"why": f"{name}: keep_dist changes the random draws requested", "cls": f"{name}:keepdist-draws"}
+        _v = emit({"why": f"{name}: keep_dist changes the random draws requested", "cls": f"{name}:keepdist-draws"})
+        if _v: return _v
     lo = Fraction(1, c["reps"] + 1) if c["plus1"] else 0
     if not (lo - Fraction(1, 10**12) <= Fraction(kept["r"][1]) <= 1 + Fraction(1, 10**12)):
-        return {"why": f"{name}: p={kept['r'][1]} outside [{lo},1]", "cls": f"{name}:p-range"}
+        _v = emit({"why": f"{name}: p={kept['r'][1]} outside [{lo},1]", "cls": f"{name}:p-range"})
+        if _v: return _v
     return None
 
 
@@ -756,10 +795,12 @@ def oracle_two(c, o):
     if not expected_shift_ok(c):
         want = "ValueError" if c["shift"][0] in ("none", "single") else "AssertionError"
         if a["r"][0] != "exc" or a["r"][1] != want:
-            return {"why": f"{name} with shift={c['shift']} should raise {want}, got {a['r'][:2]}", "cls": f"{name}:shift-guard"}
+            _v = emit({"why": f"{name} with shift={c['shift']} should raise {want}, got {a['r'][:2]}", "cls": f"{name}:shift-guard"})
+            if _v: return _v
         return None
     if a["r"][0] != "ok":
-        return {"why": f"{name} raised {a['r']}", "cls": f"{name}:raises"}
+        _v = emit({"why": f"{name} raised {a['r']}", "cls": f"{name}:raises"})
+        if _v: return _v
     r = check_common(c, o, name) or oracle_consistency(c, o, name, c["alt"])
     if r: return r
     x = [F(v) for v in c["x"]]; y = [F(v) for v in c["y"]]
@@ -779,27 +820,33 @@ def oracle_two(c, o):
             continue
         per = 1 if o[tag]["keep"] else 2
         if len(rec) != 2 + per * c["reps"]:
-            return {"why": f"{name}: statistic called {len(rec)} times, expected {2 + per * c['reps']}", "cls": f"{name}:call-count"}
+            _v = emit({"why": f"{name}: statistic called {len(rec)} times, expected {2 + per * c['reps']}", "cls": f"{name}:call-count"})
+            if _v: return _v
         for k, (u, v) in enumerate(rec):
             u = [fl(z) for z in u]; v = [fl(z) for z in v]
             if k < 2:
                 if u != t0[:nx] or v != t1[nx:]:
-                    return {"why": f"{name}: observed statistic evaluated on {u},{v}, not on the data as given {t0[:nx]},{t1[nx:]}", "cls": f"{name}:observed-not-data"}
+                    _v = emit({"why": f"{name}: observed statistic evaluated on {u},{v}, not on the data as given {t0[:nx]},{t1[nx:]}", "cls": f"{name}:observed-not-data"})
+                    if _v: return _v
                 continue
             if len(u) != nx or len(v) != len(y):
-                return {"why": f"{name}: rearrangement with group sizes {len(u)},{len(v)}", "cls": f"{name}:group-sizes"}
+                _v = emit({"why": f"{name}: rearrangement with group sizes {len(u)},{len(v)}", "cls": f"{name}:group-sizes"})
+                if _v: return _v
             # some allocation of the units: u from the treatment column of nx units, v from the control column of the rest
             if not admissible_alloc(u, v, t0, t1):
-                return {"why": f"{name}: statistic evaluated on {u},{v}, not an allocation of the units {list(zip(t0, t1))}", "cls": f"{name}:inadmissible"}
+                _v = emit({"why": f"{name}: statistic evaluated on {u},{v}, not an allocation of the units {list(zip(t0, t1))}", "cls": f"{name}:inadmissible"})
+                if _v: return _v
         if per == 2:
             calls = rec[2:]
             if any(calls[2 * i] != calls[2 * i + 1] for i in range(c["reps"])):
-                return {"why": f"{name}: the two evaluations of one repetition saw different data", "cls": f"{name}:double-eval"}
+                _v = emit({"why": f"{name}: the two evaluations of one repetition saw different data", "cls": f"{name}:double-eval"})
+                if _v: return _v
     # observed statistic = documented statistic of the data as given
     if c["stat"] == "mean":
         want = sum(t0[:nx]) / nx - sum(t1[nx:]) / len(y)
         if not close(a["r"][2], want):
-            return {"why": f"{name}: observed statistic {a['r'][2]} is not mean(x)-mean(y)={float(want)}", "cls": f"{name}:observed-stat"}
+            _v = emit({"why": f"{name}: observed statistic {a['r'][2]} is not mean(x)-mean(y)={float(want)}", "cls": f"{name}:observed-stat"})
+            if _v: return _v
     return None
 
 
@@ -821,10 +868,12 @@ def oracle_one(c, o):
     x = [F(v) for v in c["x"]]
     if c["y"] is not None and len(c["y"]) != len(c["x"]):
         if a["r"][0] != "exc" or a["r"][1] != "ValueError":
-            return {"why": f"one_sample with unpaired lengths should raise ValueError, got {a['r'][:2]}", "cls": "one_sample:pair-guard"}
+            _v = emit({"why": f"one_sample with unpaired lengths should raise ValueError, got {a['r'][:2]}", "cls": "one_sample:pair-guard"})
+            if _v: return _v
         return None
     if a["r"][0] != "ok":
-        return {"why": f"one_sample raised {a['r']}", "cls": "one_sample:raises"}
+        _v = emit({"why": f"one_sample raised {a['r']}", "cls": "one_sample:raises"})
+        if _v: return _v
     r = check_common(c, o, name) or oracle_consistency(c, o, name, c["alt"])
     if r: return r
     z = x if c["y"] is None else [p - q for p, q in zip(x, [F(v) for v in c["y"]])]
@@ -833,31 +882,40 @@ def oracle_one(c, o):
         if c["stat"] in ("mean", "t"):
             continue
         if len(rec) != 1 + c["reps"]:
-            return {"why": f"one_sample: statistic called {len(rec)} times", "cls": "one_sample:call-count"}
+            _v = emit({"why": f"one_sample: statistic called {len(rec)} times", "cls": "one_sample:call-count"})
+            if _v: return _v
         if [fl(v) for v in rec[0]] != z:
-            return {"why": f"one_sample: observed statistic evaluated on {rec[0]} not on z={z}", "cls": "one_sample:observed-not-data"}
+            _v = emit({"why": f"one_sample: observed statistic evaluated on {rec[0]} not on z={z}", "cls": "one_sample:observed-not-data"})
+            if _v: return _v
         for zz in rec[1:]:
             if [abs(fl(v)) for v in zz] != [abs(v) for v in z]:
-                return {"why": f"one_sample: rearrangement {zz} changes more than signs of {z}", "cls": "one_sample:inadmissible"}
+                _v = emit({"why": f"one_sample: rearrangement {zz} changes more than signs of {z}", "cls": "one_sample:inadmissible"})
+                if _v: return _v
     if c["stat"] == "mean" and not close(a["r"][2], sum(z) / len(z)):
-        return {"why": f"one_sample: observed statistic {a['r'][2]} is not mean(z)", "cls": "one_sample:observed-stat"}
+        _v = emit({"why": f"one_sample: observed statistic {a['r'][2]} is not mean(z)", "cls": "one_sample:observed-stat"})
+        if _v: return _v
     return None
 
 
 def oracle_corr(c, o):
     name = "spearman_corr" if c["spearman"] else "corr"
     if o["r"][0] != "ok":
-        return {"why": f"{name} raised {o['r']}", "cls": f"{name}:raises"}
+        _v = emit({"why": f"{name} raised {o['r']}", "cls": f"{name}:raises"})
+        if _v: return _v
     if not o["unmodified"]:
-        return {"why": f"{name} modified its input", "cls": f"{name}:input-modified"}
+        _v = emit({"why": f"{name} modified its input", "cls": f"{name}:input-modified"})
+        if _v: return _v
     if not o["global_same"]:
-        return {"why": f"{name} advanced numpy's global random state", "cls": f"{name}:global-rng"}
+        _v = emit({"why": f"{name} advanced numpy's global random state", "cls": f"{name}:global-rng"})
+        if _v: return _v
     p, tst, sims = o["r"][1], o["r"][2], o["r"][3]
     if len(sims) != c["reps"]:
-        return {"why": f"{name}: len(sims) != reps", "cls": f"{name}:dist-length"}
+        _v = emit({"why": f"{name}: len(sims) != reps", "cls": f"{name}:dist-length"})
+        if _v: return _v
     want = pv_spec(c["alt"], fl(tst), [fl(s) for s in sims], c["plus1"])
     if not close(p, want):
-        return {"why": f"{name}: p={p} but tail count formula on the returned sims gives {want} (plus1={c['plus1']}, alt={c['alt']})", "cls": f"{name}:p-not-from-dist"}
+        _v = emit({"why": f"{name}: p={p} but tail count formula on the returned sims gives {want} (plus1={c['plus1']}, alt={c['alt']})", "cls": f"{name}:p-not-from-dist"})
+        if _v: return _v
     x = [float(F(v)) for v in c["x"]]; y = [float(F(v)) for v in c["y"]]
     if c["spearman"]:
         rk = lambda a: [sorted(a).index(v) + 1 for v in a] if len(set(a)) == len(a) else None
@@ -867,7 +925,8 @@ def oracle_corr(c, o):
         x, y = [float(v) for v in rx], [float(v) for v in ry]
     want_t = float(np.corrcoef(np.array(x), np.array(y))[0, 1])
     if not (abs(tst - want_t) <= 1e-9):
-        return {"why": f"{name}: reported statistic {tst} but {'rank ' if c['spearman'] else ''}correlation of the data is {want_t}", "cls": f"{name}:observed-stat"}
+        _v = emit({"why": f"{name}: reported statistic {tst} but {'rank ' if c['spearman'] else ''}correlation of the data is {want_t}", "cls": f"{name}:observed-stat"})
+        if _v: return _v
     # every simulated value is the correlation of some re-pairing (values identify the arrangement)
     ans = [a for (_, a) in o["log"]]
     xs = list(x)
@@ -875,7 +934,8 @@ def oracle_corr(c, o):
         xp = m_fy(xs, ans)
         e = float(np.corrcoef(np.array(xp), np.array(y))[0, 1])
         if not (abs(e - sims[k]) <= 1e-9 * (1 + abs(e))):
-            return {"why": f"{name}: repetition {k} has statistic {sims[k]}, the re-pairing selected by the draws gives {e}", "cls": f"{name}:wrong-rearrangement"}
+            _v = emit({"why": f"{name}: repetition {k} has statistic {sims[k]}, the re-pairing selected by the draws gives {e}", "cls": f"{name}:wrong-rearrangement"})
+            if _v: return _v
     return None
 
 
@@ -883,7 +943,8 @@ def oracle_k(c, o):
     name = "k_sample"
     a = o["a"]
     if a["r"][0] != "ok":
-        return {"why": f"k_sample raised {a['r']}", "cls": "k_sample:raises"}
+        _v = emit({"why": f"k_sample raised {a['r']}", "cls": "k_sample:raises"})
+        if _v: return _v
     r = check_common(c, o, name)
     if r: return r
     b = o["b"]
@@ -892,39 +953,51 @@ def oracle_k(c, o):
     for t in (other, kept):
         if t["r"][0] != "ok":
             if "TapeExhausted" in str(t["r"]):
-                return {"why": f"k_sample: the keep_dist={t['keep']} twin asked for more draws than the keep_dist={not t['keep']} run consumed on the same answers (results {a['r'][:3]} / {b['r'][:3]}): the number of draws depends on keep_dist or on the data", "cls": "k_sample:keepdist-draws"}
-            return {"why": f"k_sample raised {t['r']}", "cls": "k_sample:raises"}
+                _v = emit({"why": f"k_sample: the keep_dist={t['keep']} twin asked for more draws than the keep_dist={not t['keep']} run consumed on the same answers (results {a['r'][:3]} / {b['r'][:3]}): the number of draws depends on keep_dist or on the data", "cls": "k_sample:keepdist-draws"})
+                if _v: return _v
+            _v = emit({"why": f"k_sample raised {t['r']}", "cls": "k_sample:raises"})
+            if _v: return _v
     d = [fl(v) for v in kept["r"][3]]; tst = fl(kept["r"][2])
     cc = 1 if c["plus1"] else 0
     want = Fraction(sum(1 for v in d if v >= tst) + cc, c["reps"] + cc)
     if len(d) != c["reps"] or not close(kept["r"][1], want):
-        return {"why": f"k_sample: p={kept['r'][1]} but (#{{dist>=obs}}+c)/(reps+c)={want}", "cls": "k_sample:p-not-from-dist"}
+        _v = emit({"why": f"k_sample: p={kept['r'][1]} but (#{{dist>=obs}}+c)/(reps+c)={want}", "cls": "k_sample:p-not-from-dist"})
+        if _v: return _v
     if not close(other["r"][1], kept["r"][1]) or other["r"][2] != kept["r"][2]:
-        return {"why": f"k_sample: keep_dist changes the result: {other['r'][:3]} vs {kept['r'][:3]}", "cls": "k_sample:keepdist-differs"}
+        _v = emit({"why": f"k_sample: keep_dist changes the result: {other['r'][:3]} vs {kept['r'][:3]}", "cls": "k_sample:keepdist-differs"})
+        if _v: return _v
     g0 = sorted(c["g"])
+    for tag in ("a", "b"):
+        if o[tag]["rec"] and o[tag]["rec"][0] != c["g"]:
+            _v = emit({"why": f"k_sample: the observed statistic was evaluated on the labels {o[tag]['rec'][0]}, not on the labels as given {c['g']}", "cls": "k_sample:observed-not-data"})
+            if _v: return _v
     for tag in ("a", "b"):
         for g in o[tag]["rec"][1:]:
             if sorted(g) != g0:
-                return {"why": f"k_sample: relabelling {g} does not conserve the labels {c['g']}", "cls": "k_sample:inadmissible"}
-        if o[tag]["rec"] and o[tag]["rec"][0] != c["g"]:
-            return {"why": "k_sample: observed statistic not evaluated on the labels as given", "cls": "k_sample:observed-not-data"}
+                _v = emit({"why": f"k_sample: relabelling {g} does not conserve the labels {c['g']}", "cls": "k_sample:inadmissible"})
+                if _v: return _v
     if c["stat"] == "one-way anova":
         x = [F(v) for v in c["x"]]; xbar = sum(x) / len(x)
         ssb = sum((sum(x[i] for i in range(len(x)) if c["g"][i] == k) / c["g"].count(k) - xbar) ** 2 * c["g"].count(k) for k in set(c["g"]))
         if not close(a["r"][2], ssb, 1e-9):
-            return {"why": f"k_sample: observed statistic {a['r'][2]} is not the between-group sum of squares {float(ssb)}", "cls": "k_sample:observed-stat"}
+            _v = emit({"why": f"k_sample: observed statistic {a['r'][2]} is not the between-group sum of squares {float(ssb)}", "cls": "k_sample:observed-stat"})
+            if _v: return _v
     return None
 
 
 def oracle_permute(c, o):
     if o["r"][0] != "ok":
-        return {"why": f"permute raised {o['r']}", "cls": "permute:raises"}
+        _v = emit({"why": f"permute raised {o['r']}", "cls": "permute:raises"})
+        if _v: return _v
     if not o["unmodified"]:
-        return {"why": "permute modified its argument", "cls": "permute:input-modified"}
+        _v = emit({"why": "permute modified its argument", "cls": "permute:input-modified"})
+        if _v: return _v
     if not o["global_same"]:
-        return {"why": "permute with an explicit generator advanced numpy's global state", "cls": "permute:global-rng"}
+        _v = emit({"why": "permute with an explicit generator advanced numpy's global state", "cls": "permute:global-rng"})
+        if _v: return _v
     if sorted(fl(v) for v in o["r"][1]) != sorted(F(v) for v in c["x"]):
-        return {"why": f"permute returned {o['r'][1]}, not a rearrangement of {c['x']}", "cls": "permute:inadmissible"}
+        _v = emit({"why": f"permute returned {o['r'][1]}, not a rearrangement of {c['x']}", "cls": "permute:inadmissible"})
+        if _v: return _v
     return None
 
 
@@ -935,15 +1008,18 @@ def oracle_pot(c, o):
     if c["kind"] == "cube":
         return None if (r[0] == "exc" and r[1] == "AssertionError") else {"why": f"potential_outcomes accepted u^3 as its own inverse: {r[:2]}", "cls": "potential_outcomes:inverse-guard"}
     if r[0] != "ok":
-        return {"why": f"potential_outcomes raised {r}", "cls": "potential_outcomes:raises"}
+        _v = emit({"why": f"potential_outcomes raised {r}", "cls": "potential_outcomes:raises"})
+        if _v: return _v
     x = [F(v) for v in c["x"]]; y = [F(v) for v in c["y"]]; d = F(c["d"])
     f, finv = ((lambda u: u + d), (lambda u: u - d)) if c["kind"] == "add" else ((lambda u: u * 2), (lambda u: u / 2))
     want = list(zip(x + [f(v) for v in y], [finv(v) for v in x] + y))
     got = [(fl(a), fl(b)) for a, b in r[1]]
     if len(got) != len(want) or any(not close(g[0], w[0]) or not close(g[1], w[1]) for g, w in zip(got, want)):
-        return {"why": f"potential_outcomes returned {r[1]}, expected {[(float(a), float(b)) for a, b in want]}", "cls": "potential_outcomes:table"}
+        _v = emit({"why": f"potential_outcomes returned {r[1]}, expected {[(float(a), float(b)) for a, b in want]}", "cls": "potential_outcomes:table"})
+        if _v: return _v
     if not o["unmodified"]:
-        return {"why": "potential_outcomes modified its inputs", "cls": "potential_outcomes:input-modified"}
+        _v = emit({"why": "potential_outcomes modified its inputs", "cls": "potential_outcomes:input-modified"})
+        if _v: return _v
     return None
 
 
@@ -959,14 +1035,17 @@ def oracle_real(c, o):
                     ok = len(a[0]) == len(x) and all(abs(u) == abs(v) for u, v in zip(a[0], x))
                 if not ok:
                     gen = "RandomState" if tag == "rec_rs" else "int seed"
-                    return {"why": f"{name} with a {gen} generator handed the statistic {a}, not a rearrangement / sign change of x={x}, y={y}", "cls": f"{name}:inadmissible"}
+                    _v = emit({"why": f"{name} with a {gen} generator handed the statistic {a}, not a rearrangement / sign change of x={x}, y={y}", "cls": f"{name}:inadmissible"})
+                    if _v: return _v
     if "named_tape" in o:
         tp = o["named_tape"]
         if tp["r"][0] != "ok":
-            return {"why": f"{name}(stat={c['stat']!r}) raised on a scripted generator: {tp['r']}", "cls": f"{name}:raises"}
+            _v = emit({"why": f"{name}(stat={c['stat']!r}) raised on a scripted generator: {tp['r']}", "cls": f"{name}:raises"})
+            if _v: return _v
         got = [tp["r"][2]] + tp["r"][3]
         if tp.get("leftover"):
-            return {"why": f"{name}(stat={c['stat']!r}) drew {tp['leftover']} more answers than one shuffle pass / one sign per unit for each of the {c['reps']} repetitions: the number of draws depends on the data", "cls": f"{name}:draws-depend-on-data"}
+            _v = emit({"why": f"{name}(stat={c['stat']!r}) drew {tp['leftover']} more answers than one shuffle pass / one sign per unit for each of the {c['reps']} repetitions: the number of draws depends on the data", "cls": f"{name}:draws-depend-on-data"})
+            if _v: return _v
         for k, (gv, ev) in enumerate(zip(got, tp["expected"])):
             if (math.isfinite(ev) and not (abs(gv - ev) <= 1e-9 * (1 + abs(ev)))) or (math.isinf(ev) and gv != ev):
                 what = "observed statistic" if k == 0 else f"simulated value {k - 1}"
@@ -976,16 +1055,21 @@ def oracle_real(c, o):
     rs = {k: v["r"] for k, v in o.items()}
     if any(v[0] != "ok" for v in rs.values()):
         bad = [(k, v[:3]) for k, v in rs.items() if v[0] != "ok"]
-        return {"why": f"{name} raised on real seeds: {bad}", "cls": f"{name}:raises"}
+        _v = emit({"why": f"{name} raised on real seeds: {bad}", "cls": f"{name}:raises"})
+        if _v: return _v
     if rs["int1"] != rs["int2"]:
-        return {"why": f"{name}: two calls with seed={c['seed']} under different numpy global states differ", "cls": f"{name}:irreproducible"}
+        _v = emit({"why": f"{name}: two calls with seed={c['seed']} under different numpy global states differ", "cls": f"{name}:irreproducible"})
+        if _v: return _v
     if rs["int1"] != rs["sha"]:
-        return {"why": f"{name}: int seed and SHA256(seed) give different results", "cls": f"{name}:int-vs-sha256"}
+        _v = emit({"why": f"{name}: int seed and SHA256(seed) give different results", "cls": f"{name}:int-vs-sha256"})
+        if _v: return _v
     if rs["rs1"] != rs["rs2"]:
-        return {"why": f"{name}: two RandomState generators in the same state give different results", "cls": f"{name}:randomstate-replay"}
+        _v = emit({"why": f"{name}: two RandomState generators in the same state give different results", "cls": f"{name}:randomstate-replay"})
+        if _v: return _v
     for k, v in o.items():
         if not v.get("global_same", True):
-            return {"why": f"{name} ({k}) advanced numpy's global random state although a seed/generator was given", "cls": f"{name}:global-rng"}
+            _v = emit({"why": f"{name} ({k}) advanced numpy's global random state although a seed/generator was given", "cls": f"{name}:global-rng"})
+            if _v: return _v
     for tag in ("int1", "rs1"):
         p, tst, d = rs[tag][1], rs[tag][2], rs[tag][3]
         if not all(math.isfinite(v) for v in d + [tst]):
@@ -993,9 +1077,11 @@ def oracle_real(c, o):
         alt = c["alt"] if name != "k_sample" else "greater"
         want = pv_spec(alt, fl(tst), [fl(v) for v in d], c["plus1"])
         if len(d) != c["reps"] or not close(p, want):
-            return {"why": f"{name}[{tag}]: p={p} but the tail-count formula on the returned dist gives {want} (alt={alt}, plus1={c['plus1']}, obs={tst}, dist={d})", "cls": f"{name}:p-not-from-dist"}
+            _v = emit({"why": f"{name}[{tag}]: p={p} but the tail-count formula on the returned dist gives {want} (alt={alt}, plus1={c['plus1']}, obs={tst}, dist={d})", "cls": f"{name}:p-not-from-dist"})
+            if _v: return _v
     if "nokeep" in rs and (not close(rs["nokeep"][1], rs["int1"][1]) or rs["nokeep"][2] != rs["int1"][2]):
-        return {"why": f"{name}: keep_dist=False gives {rs['nokeep'][:3]}, keep_dist=True {rs['int1'][:3]} under the same seed", "cls": f"{name}:keepdist-differs"}
+        _v = emit({"why": f"{name}: keep_dist=False gives {rs['nokeep'][:3]}, keep_dist=True {rs['int1'][:3]} under the same seed", "cls": f"{name}:keepdist-differs"})
+        if _v: return _v
     return None
 
 
